@@ -6,7 +6,11 @@ use crate::ir::*;
 use crate::tape::Tape;
 
 const IDS: [&str; 16] = ["a", "b", "c", "x", "y", "foo", "this", "_", "_1", "x_y", "A9", "beginx", "iff", "nulll", "printer", "e5"];
-const FMTS: [&str; 10] = ["", "~", "a ~ b\\n", "\\\\ \\\" \\~ \\t \\r", "ž 👍", "x\ny", "  ", "/* no comment */", "// neither", "~~"];
+const FMTS: [&str; 20] = [
+    "", "~", "a ~ b\\n", "\\\\ \\\" \\~ \\t \\r", "ž 👍", "x\ny", "  ", "/* no comment */", "// neither", "~~",
+    // escapes at the very ends of the literal, where the delimiters are
+    "\\\"", "say \\\"hi\\\"", "\\\"\\\"", "\\\"x", "x\\\\", "\\\\", "\\\\\\\"", "\\~", "tail \\n", "\\\" \\\\ \\\"",
+];
 
 pub struct AstGen<'t, 'a> {
     pub t: &'t mut Tape<'a>,
